@@ -8,10 +8,13 @@ from .runner import OutOfModel, enc, txt
 from .tlc import run_tlc, require_ok, MachineryError
 
 
+KEEP_INTERNAL = False      # C17's layout runs compare the hash-named variables too (their names must not depend on the layout)
+
+
 def _norm_vars(variables):
     out = []
     for k, v in variables.items():
-        if k.startswith("_intx_"):
+        if k.startswith("_intx_") and not KEEP_INTERNAL:
             continue  # hash-named internal bookkeeping (once/onchange markers), not a csvpath variable
         if isinstance(v, dict):
             v = {a: b for a, b in v.items() if b is not None}
@@ -86,8 +89,10 @@ def strip_private(prog):
     return p
 
 
-def run_case(case, method="collect"):
-    """Execute one case for real. Returns (trace_record | None, info)."""
+def run_case(case, method="collect", bare=False):
+    """Execute one case for real. Returns (trace_record | None, info).
+    bare: a CsvPath as a user makes it - no capturing printer is added, so its only printer is the default standard-out printer,
+    and with print-mode: no-default it has no printer at all (the printed lines of the trace are then empty: see final.stdout)."""
     d = scratch.scratch_dir() or scratch.enter_scratch()
     path = os.path.join(d, "f.csv")
     runner.write_csv(path, case["records"], **(case.get("dialect") or {}))
@@ -97,7 +102,12 @@ def run_case(case, method="collect"):
     dia = case.get("dialect") or {}
     # the error policy is the configuration's (the scratch default is 'collect, print')
     scratch.set_policy(", ".join(case["cfg"].get("policy") or ["collect", "print"]))
-    p, cap = runner.new_csvpath(delimiter=dia.get("delimiter", ","), quotechar=dia.get("quotechar", '"'))
+    if bare:
+        from csvpath import CsvPath
+
+        p, cap = CsvPath(delimiter=dia.get("delimiter", ","), quotechar=dia.get("quotechar", '"')), runner.CapturePrinter()
+    else:
+        p, cap = runner.new_csvpath(delimiter=dia.get("delimiter", ","), quotechar=dia.get("quotechar", '"'))
     raised = ""
     lines = None
     orig = p._consider_line
